@@ -3,6 +3,7 @@ package main
 import (
 	"context"
 	"database/sql"
+	"encoding/json"
 	"flag"
 	"fmt"
 	"math"
@@ -597,6 +598,225 @@ var witnesses = []witness{
 			return "B's superseded version cannot be read any more: " + err.Error()
 		}
 		return ""
+	}},
+	{id: "F57", props: []string{"C13", "C15", "C05"}, what: "a read-only table that had been written to refused every later transaction and left a write time on the connection", run: func(w *wEnv) string {
+		w.mk("rw", "k primary key, a", sqlh.TableOpts{})
+		w.x("insert into rw values(1,'x')")
+		w.mk("ro", "k primary key, a", sqlh.TableOpts{ReadOnly: true})
+		w.x("delete from ro where k=999")
+		if r := w.x("insert into ro values(2,'y')"); !strings.HasPrefix(r, "ERR:readonly") {
+			return "second write to the read-only table: " + r
+		}
+		return wantEq("write_time after the refused writes", w.q("select write_time from s3db_conn"), "N")
+	}},
+	{id: "F58", props: []string{"C05"}, what: "s3db_refresh inside a transaction that had written brought in newer rows whose UPDATE/DELETE was then silently lost", run: func(w *wEnv) string {
+		w.mk("log", "k primary key, a", sqlh.TableOpts{Prefix: "log"})
+		w.mk("t1", "k primary key, a", sqlh.TableOpts{})
+		db2 := sqlh.Open()
+		defer db2.Close()
+		sqlh.XS(db2, sqlh.CreateSQL(sqlh.TableOpts{Name: "t2", Bucket: w.bucket, Prefix: "p", Columns: "k primary key, a"}))
+		w.x("begin")
+		w.x("insert into log values(1,'job started')")
+		time.Sleep(2 * time.Millisecond)
+		sqlh.Exec(db2, "insert into t2 values(7,'from connection 2')")
+		r := w.x("select s3db_refresh('t1')")
+		if r == "ok" {
+			w.x("update t1 set a='from connection 1' where k=7")
+			got := w.q("select a from t1 where k=7")
+			w.x("rollback")
+			return wantEq("the transaction's own UPDATE of a row it got by refreshing", got, t("from connection 1"))
+		}
+		w.x("rollback")
+		return ""
+	}},
+	{id: "F59", props: []string{"C20"}, what: "a blank after the = of an option made the quotes part of the value; sizes with a leading zero were octal", run: func(w *wEnv) string {
+		if r := w.x(fmt.Sprintf(`create virtual table t1 using s3db (columns= 'a primary key, b', s3_bucket= '%s', s3_endpoint='%s', s3_prefix= 'q', entries_per_node=0100)`, w.bucket, sqlh.Endpoint)); r != "ok" {
+			return "create: " + r
+		}
+		if e := wantEq("columns", w.q("select name from pragma_table_info('t1') order by cid"), t("a")+" | "+t("b")); e != "" {
+			return e
+		}
+		vt := s3db.GetTable("t1")
+		if vt.S3Options.Prefix != "q" || vt.S3Options.EntriesPerNode != 100 {
+			return fmt.Sprintf("prefix %q entries_per_node %d", vt.S3Options.Prefix, vt.S3Options.EntriesPerNode)
+		}
+		if r := w.mk("t2", "a primary key", sqlh.TableOpts{Extra: "entries_per_node=0x10, "}); !strings.HasPrefix(r, "ERR") {
+			return "entries_per_node=0x10 accepted: " + r
+		}
+		return ""
+	}},
+	{id: "F61", props: []string{"C20"}, what: "a definition SQLite refuses to declare (columns differing only in case, _rowid_, invalid UTF-8) was rejected only after the storage had been opened and a merge written", run: func(w *wEnv) string {
+		// two unmerged versions under the prefix: an open would merge them and store the merge
+		for n := 0; n < 2; n++ {
+			d := sqlh.Open()
+			sqlh.XS(d, sqlh.CreateSQL(sqlh.TableOpts{Name: fmt.Sprintf("pre%d", n), Bucket: w.bucket, Prefix: "p", Columns: "k primary key, v"}))
+			defer d.Close()
+		}
+		w.x("select 1")
+		d0, d1 := sqlh.Open(), sqlh.Open()
+		defer d0.Close()
+		defer d1.Close()
+		sqlh.XS(d0, sqlh.CreateSQL(sqlh.TableOpts{Name: "w0", Bucket: w.bucket, Prefix: "p", Columns: "k primary key, v"}))
+		sqlh.XS(d1, sqlh.CreateSQL(sqlh.TableOpts{Name: "w1", Bucket: w.bucket, Prefix: "p", Columns: "k primary key, v"}))
+		sqlh.Exec(d0, "insert into w0 values(1,'a')")
+		sqlh.Exec(d1, "insert into w1 values(2,'b')")
+		before := strings.Join(w.store.Keys(""), " ")
+		for n, cols := range []string{"k primary key, v, V", "_rowid_, v", "k primary key, \xff"} {
+			cols = strings.ReplaceAll(cols, "\\xff", "\xff")
+			if r := w.mk(fmt.Sprintf("bad%d", n), cols, sqlh.TableOpts{}); !strings.HasPrefix(r, "ERR") {
+				return fmt.Sprintf("columns='%s' accepted: %s", cols, r)
+			}
+			if after := strings.Join(w.store.Keys(""), " "); after != before {
+				return fmt.Sprintf("the rejected columns='%s' changed the bucket", cols)
+			}
+		}
+		return ""
+	}},
+	{id: "F62", props: []string{"C06", "C07"}, what: "a key comparison under NOCASE/RTRIM narrowed the scan bytewise and lost rows", run: func(w *wEnv) string {
+		w.mk("t", "a primary key, b", sqlh.TableOpts{})
+		for n, k := range []string{"abc", "ABC", "Abd", "B", "b", "a", "A", "abc  "} {
+			w.x("insert into t values(?,?)", k, n)
+		}
+		if e := wantEq("a = 'abc' collate nocase", w.q("select count(*) from t where a = 'abc' collate nocase"), i(2)); e != "" {
+			return e
+		}
+		if e := wantEq("a < 'B' collate nocase", w.q("select count(*) from t where a < 'B' collate nocase"), i(6)); e != "" {
+			return e
+		}
+		return wantEq("a = 'abc' collate rtrim", w.q("select count(*) from t where a = 'abc' collate rtrim"), i(2))
+	}},
+	{id: "F64", props: []string{"C18", "C12", "C16"}, what: "a node object overwritten with another node's object (or with nothing) was accepted", run: func(w *wEnv) string {
+		store := fakes3.NewStore()
+		cfg := kv.Config{Storage: &kv.S3BucketInfo{EndpointURL: "http://fake", BucketName: "b", Prefix: "p"}, KeysLike: "", ValuesLike: "", BranchFactor: 4, NodeEncryptor: kv.V1NodeEncryptor([]byte("passphrase"))}
+		db, err := kv.Open(ctxBG, store.Client("w"), cfg, kv.OpenOptions{}, time.Unix(0, 1))
+		if err != nil {
+			return "open: " + err.Error()
+		}
+		defer db.Cancel()
+		db.Set(ctxBG, time.Unix(0, 10), "balance", "100")
+		if _, err := db.Commit(ctxBG); err != nil {
+			return "commit: " + err.Error()
+		}
+		n1 := store.Keys("p/node/")
+		db.Set(ctxBG, time.Unix(0, 20), "balance", "0")
+		if _, err := db.Commit(ctxBG); err != nil {
+			return "commit: " + err.Error()
+		}
+		var newNode string
+		for _, k := range store.Keys("p/node/") {
+			if len(n1) == 1 && k != n1[0] {
+				newNode = k
+			}
+		}
+		if newNode == "" {
+			return "could not tell the two nodes apart"
+		}
+		old, _ := store.Get(n1[0])
+		for _, body := range [][]byte{old, {}} {
+			store.Put(newNode, body)
+			rd, err := kv.Open(ctxBG, store.Client("r"), cfg, kv.OpenOptions{ReadOnly: true}, time.Unix(0, 2))
+			if err != nil {
+				continue // refused at open: fine
+			}
+			var v string
+			if ok, err := rd.Get(ctxBG, "balance", &v); err == nil {
+				return fmt.Sprintf("a node object replaced by %d foreign bytes was accepted: balance=%q present=%v", len(body), v, ok)
+			}
+		}
+		return ""
+	}},
+	{id: "F69", props: []string{"C09", "C10", "C14", "C04"}, what: "after a vacuum interrupted while deleting version objects every later vacuum failed", run: func(w *wEnv) string {
+		var cl *fakes3.Client
+		sqlh.NextClient("v", func(c *fakes3.Client) { cl = c })
+		w.mk("t", "k primary key, a", sqlh.TableOpts{EntriesPerNode: 2})
+		sqlh.NextClient("", nil)
+		for k := 0; k < 12; k++ {
+			w.x("insert into t values(?,'v')", k)
+		}
+		for n := 0; n < 4; n++ {
+			w.x("update t set a=?", fmt.Sprint("u", n))
+		}
+		// refuse the second deletion of a version object (and everything after it) once
+		nd, armed := 0, true
+		cl.Fault = func(idx, midx int, op, key string) error {
+			if armed && op == "DEL" && strings.Contains(key, "/root/merged/") {
+				nd++
+				if nd >= 2 {
+					return awserr.New("InternalError", "injected fault", nil)
+				}
+			}
+			return nil
+		}
+		s3db.Vacuum(context.Background(), "t", time.Now().Add(time.Hour))
+		armed = false
+		cl.Fault = nil
+		if err := s3db.Vacuum(context.Background(), "t", time.Now().Add(time.Hour)); err != nil {
+			return "the vacuum after the interrupted one: " + err.Error()
+		}
+		return wantEq("rows", w.q("select count(*) from t"), i(12))
+	}},
+	{id: "F70", props: []string{"C09", "C11"}, what: "a version created after the cutoff was removed because its successor (a merge version dated before its listing) carried an earlier time (kv level)", run: func(w *wEnv) string {
+		store := fakes3.NewStore()
+		cfg := kv.Config{Storage: &kv.S3BucketInfo{EndpointURL: "http://fake", BucketName: "b", Prefix: "p"}, KeysLike: "", ValuesLike: "", BranchFactor: 4}
+		at := func(n int64) time.Time { return time.Unix(1000+n, 0) }
+		db, err := kv.Open(ctxBG, store.Client("w"), cfg, kv.OpenOptions{}, at(10))
+		if err != nil {
+			return "open: " + err.Error()
+		}
+		defer db.Cancel()
+		db.Set(ctxBG, at(1), "a", "1")
+		db.Commit(ctxBG) // V1 @10
+		db.SetCreated(at(30))
+		db.Set(ctxBG, at(2), "b", "2")
+		v2, _ := db.Commit(ctxBG) // V2 @30
+		db.SetCreated(at(20))
+		db.Set(ctxBG, at(3), "c", "3")
+		db.Commit(ctxBG) // V3 @20: older than the version it supersedes
+		if err := kv.DeleteHistoricVersions(ctxBG, db, at(25)); err != nil {
+			return "vacuum: " + err.Error()
+		}
+		if _, ok := store.Get("p/root/merged/" + *v2); !ok {
+			return "the version created at 30 was removed by a vacuum with the cutoff 25"
+		}
+		return ""
+	}},
+	{id: "F71", props: []string{"C09", "C11"}, what: "after vacuum deleted the empty table's current version s3db_version() went on naming it", run: func(w *wEnv) string {
+		w.mk("t", "a primary key, b", sqlh.TableOpts{})
+		w.x("insert into t values (1,'x')")
+		w.x("delete from t")
+		if err := s3db.Vacuum(context.Background(), "t", time.Now().Add(time.Hour)); err != nil {
+			return "vacuum: " + err.Error()
+		}
+		v := w.q("select s3db_version('t')")
+		b := make([]byte, len(v)/2-1)
+		fmt.Sscanf(strings.TrimPrefix(v, "T:"), "%x", &b)
+		var names []string
+		if err := json.Unmarshal(b, &names); err != nil {
+			return "s3db_version: " + v
+		}
+		for _, n := range names {
+			_, c := w.store.Get("p/root/current/" + n)
+			_, m := w.store.Get("p/root/merged/" + n)
+			if !c && !m {
+				return "s3db_version() names " + n + ", which vacuum has just deleted"
+			}
+		}
+		return ""
+	}},
+	{id: "F74", props: []string{"C15", "C02", "C06"}, what: "a write_time outside 1677..2262 was accepted and wrapped around", run: func(w *wEnv) string {
+		for _, ts := range []string{"9999-12-31 23:59:59", "2262-04-12 00:00:00", "1600-01-01 00:00:00", "1000-01-01 00:00:00"} {
+			if r := w.x("update s3db_conn set write_time=?", ts); !strings.HasPrefix(r, "ERR") {
+				return "write_time=" + ts + " accepted: " + r
+			}
+		}
+		if r := w.x("update s3db_conn set write_time='2262-04-11 00:00:00'"); r != "ok" {
+			return "write_time=2262-04-11: " + r
+		}
+		return ""
+	}},
+	{id: "F75", props: []string{"C15"}, what: "s3db_conn on the inner side of a join returned its row for the first outer row only", run: func(w *wEnv) string {
+		w.x("update s3db_conn set write_time='2020-01-01 00:00:00'")
+		return wantEq("left join against s3db_conn", w.q("select count(write_time) from (select 1 as x union all select 2 union all select 3) o left join s3db_conn"), i(3))
 	}},
 	{id: "F15", props: []string{"C03"}, what: "an open racing with a commit showed an empty table (kv level)", run: func(w *wEnv) string {
 		// covered exhaustively by the proto stream; here: a version that left root/current/ between LIST and GET
